@@ -32,7 +32,8 @@ Base1 == World([P0 |-> Pt(0, T("x", "-", "x")), P1 |-> Pt(1, NT), P2 |-> Pt(2, N
 Cand1 == { C("P3", Pt(3, T("x", "-", "-"))),
            C("P50", Pt(4, T("x", "-", "-"))),      \* an overlay-only match in another namespace: merge order
            C("P0", Pt(0, T("-", "-", "y"))),
-           C("A1", Ar(<< <<"W2">> >>, T("-", "x", "-"))) }
+           C("A1", Ar(<< <<"W2">> >>, T("-", "x", "-"))),
+           C("A1", Ar(<<>>, T("-", "-", "y"))) }       \* an area without polygons (yet)
 
 \* ---- scenario 2: tag edits on a path, a relation and a collection (C12, C03, C18)
 Base2 == World([P0 |-> Pt(0, NT), P1 |-> Pt(1, T("-", "x", "-")),
@@ -41,6 +42,8 @@ Base2 == World([P0 |-> Pt(0, NT), P1 |-> Pt(1, T("-", "x", "-")),
                 C1 |-> Co(<<"P0", "W1">>, T("-", "-", "x"))])
 Cand2 == { C("W1", Pa(<<"P1", "P0">>, T("y", "-", "-"))),
            C("R1", Re(<<"P1">>, T("-", "-", "y"))),
+           C("R1", Re(<<>>, T("x", "-", "-"))),     \* a relation without members (yet), tagged
+           C("R1", Re(<<>>, NT)),                    \* ... and untagged
            C("P0", Pt(0, T("-", "-", "x"))) }    \* re-adding a point copies the base features that reference it
 
 \* ---- scenario 3: geometry edits that must be accepted or rejected depending on the current world (C13, C37, C15, C38)
